@@ -157,6 +157,11 @@ def run_case(ctx, name, obj, cfg):
 def run(ctx):
     t0 = time.time()
     lean_ok = ctx.build(required_theorems=REQUIRED)
+    # the CLI is imported here, in the harness's own working directory; every case then runs in a forked child that
+    # changes directory first: "<cwd>" is the directory at the time of the call, not at import time
+    import skops.cli.entrypoint  # noqa: F401
+    import skops.cli._convert  # noqa: F401
+
     g = objgen.G(ctx.rng)
     r = ctx.rng
     objects = [(n, o) for n, o in zoo() if n not in ("method",)]
